@@ -13,7 +13,7 @@ SEL = ('filter', 'select', 'extra')
 PROPS = {
     'C01': P('payment-token ledger: invariant of exec + claims in any order; correspondence on balances of every call',
              eps=('claim', 'claimPayment', 'confirm', 'blacklist', 'refund', 'confirmNft', 'setPrice'), cats=('bal', 'status'),
-             coq=('Proofs/Ledger.v', 'Proofs/ClaimLedger.v', 'Proofs/Partition.v', 'Proofs/Lifecycle.v', 'Proofs/Setup.v', 'Proofs/SetupPrice.v', 'Proofs/SetupGt.v', 'Proofs/SetupNft.v')),
+             coq=('Proofs/Ledger.v', 'Proofs/ClaimLedger.v', 'Proofs/Partition.v', 'Proofs/Lifecycle.v', 'Proofs/Setup.v', 'Proofs/SetupPrice.v', 'Proofs/SetupGt.v', 'Proofs/SetupNft.v', 'Proofs/SetupNgt.v')),
     'C02': P('launchpad-token ledger: deposit acceptance iff tpt x (W+R), cover, surplus',
              eps=('deposit', 'claim', 'claimPayment', 'setTpt'), cats=('bal', 'status', 'locks'), views=('deposited', 'tpt', 'nrWinning'),
              coq=('Proofs/Ledger.v', 'Proofs/Reserve.v', 'Proofs/ClaimLedger.v', 'Proofs/VestedCover.v', 'Proofs/VestedLifecycle.v', 'Proofs/SetupVested.v', 'Proofs/SetupCover.v')),
@@ -49,7 +49,7 @@ PROPS = {
              gentable=('const_max_pct_gt1', 'const_max_pct_gt2', 'const_max_milestones', 'const_max_round_diff')),
     'C14': P('NFT draw without replacement, fee paid once and exactly, SFT kinds, fees reconcile',
              eps=('confirmNft', 'extra', 'claim', 'claimPayment', 'setNftCost', 'blacklist'), cats=('status', 'bal', 'ret'),
-             rng=True, views=('confirmedNft', 'wonNft', 'nftCost'), coq=('Proofs/Nft.v', 'Proofs/NftLedger.v', 'Proofs/SetupNft.v'),
+             rng=True, views=('confirmedNft', 'wonNft', 'nftCost'), coq=('Proofs/Nft.v', 'Proofs/NftLedger.v', 'Proofs/SetupNft.v', 'Proofs/SetupNgt.v'),
              gentable=('const_nft_amount', 'const_vec_start_nft')),
     'C15': P('caller conditions of every endpoint: regenerated attribute table + dispatch lemmas',
              eps=None, cats=('status',), coq=('Proofs/Permissions.v', 'Proofs/GenTable.v'),
